@@ -833,7 +833,8 @@ pub fn gen_project(seed: u64, pi: usize, gpp: usize) -> Value {
         let edit = if rng.chance(1, 6) {
             let mut e = gen_group(rng.next(), gid, is_entity, split).0;
             // sometimes the file of the secondary unit is emptied instead (shape of finding F3)
-            if split && rng.chance(1, 2) {
+            let deferred = files[0][1].as_str().map(|t| t.contains("@dk")).unwrap_or(false);
+            if split && !deferred && rng.chance(1, 2) {
                 let name = files[1][0].clone();
                 e = vec![json!([name, ""])];
             }
